@@ -44,6 +44,7 @@ type Options struct {
 	Overflow   bool            // math-int mode: obligations that int arithmetic stays within 64 bits
 	Bounded    string
 	Reveal     bool // opaque spec functions are expanded (used when proving the contracts that define them)
+	AppendDouble bool // bounded lemmas: deterministic capacity growth on reallocating appends
 	Paths      bool // path mode: fork at every symbolic branch, never merge (bounded lemmas)
 	ModelElems bool // name the leading elements of slice parameters (counterexample replay)
 	InlineAll  bool // falsifier mode: ignore contracts of callees with bodies, inline them instead
